@@ -21,7 +21,7 @@ def gen_rows(rng, n, tag0, sids):
     for k in range(n):
         rows.append({"sid": sids[k], "tomo": rng.randint(1, 3), "obj": rng.randint(1, 3), "cls": rng.randint(1, 2),
                      "score": 0, "tag": tag0 + k,
-                     "x": [8 * rng.randint(-3, 30) for _ in range(3)],
+                     "x": [8 * rng.randint(-3, 30) + rng.choice([0, 0, 0, 4, -2]) for _ in range(3)],
                      "s": [rng.choice([0, 0, 4, -4, 3, -7, 12, 1]) for _ in range(3)],
                      "r": rng.choice(geo.all_codes())})
     return rows
@@ -137,7 +137,9 @@ def do_op(cm, m, sv, op, st_rows, workdir, variant, shared=None):
         else:
             if shared is not None and "dims" not in shared:
                 import pandas as pd
-                shared["dims"] = pd.DataFrame(np.array([[t, 100, 120, DIMZ[t]] for t in sorted(DIMZ)], dtype=float),
+                rows = [[t, 100, 120, DIMZ[t]] for t in sorted(DIMZ)] + [[8, 30, 30, 30]]
+                k = variant % len(rows)
+                shared["dims"] = pd.DataFrame(np.array(rows[k:] + rows[:k], dtype=float),       # any row order
                                               columns=["tomo_id", "x", "y", "z"])
             # the same dimension table object is handed over at every flip of a history
             m.flip_handedness(shared["dims"] if shared is not None else
